@@ -123,6 +123,88 @@ def inline_helpers(crate):
     return out
 
 
+def walk_inlined(crate, value, _seen=None):
+    """hir.walk over a body, continuing into the bodies of the private helpers it calls (the ones pathsum evaluates in
+    place); the call node of a helper is not yielded, its body's nodes are."""
+    helpers = inline_helpers(crate)
+    seen = _seen if _seen is not None else set()
+    for x in hir.walk(value):
+        c = hir.base_path(hir.callee(x) or "") if x.get("k") in ("Call", "MethodCall") else ""
+        if c in helpers:
+            if c not in seen:
+                seen.add(c)
+                yield from walk_inlined(crate, helpers[c]["value"], seen)
+            continue
+        yield x
+
+
+def subst_term(t, old, new):
+    if t == old:
+        return new
+    if isinstance(t, tuple):
+        return tuple(subst_term(x, old, new) for x in t)
+    return t
+
+
+def ctor_type(t):
+    """enum type path of a constructor term (`a::b::Enum::Variant` -> `a::b::Enum`)"""
+    return t[1].rsplit("::", 1)[0] if t and t[0] == "ctor" and "::" in t[1] else None
+
+
+def conv_values(crate, inner, fty, tty, depth=0):
+    """Possible values of `<tty as From<fty>>::from(inner)` read from the local From impl (its path summaries with the
+    parameter replaced by `inner`; paths excluded by the constructor of `inner` are dropped; conversions inside the impl
+    (`Error::X.into()`) are evaluated the same way). None when there is no such local impl or it is not a plain case split."""
+    if fty == tty:
+        return [inner]
+    d = "<%s as core::convert::From<%s>>::from" % (tty, fty)
+    b = crate.body(d)
+    if b is None or depth > 3:
+        return None
+    try:
+        ex, ps = summarize(crate, d)
+    except pathsum.Unsupported:
+        return None
+    if not ex:
+        return None
+    pname = b["params"][0].get("name") if b["params"] else None
+    p = ("param", pname) if pname else None
+    out = []
+    for x in ex:
+        if x.kind != "return" or x.value is None:
+            return None
+        feasible = True
+        for c in x.conds:
+            if c[0] == "is" and p is not None and c[1] == p and inner[0] == "ctor" and c[2].rsplit("::", 1)[0] == ctor_type(inner):
+                if (inner[1] == c[2]) != c[3]:
+                    feasible = False
+        if not feasible:
+            continue
+        v = pathsum.strip_sites(x.value)
+        if p is not None:
+            v = subst_term(v, p, pathsum.strip_sites(inner))
+        vs = canon_conv(crate, v, tty, depth + 1)
+        if vs is None:
+            return None
+        out += vs
+    return out
+
+
+def canon_conv(crate, t, tty=None, depth=0):
+    """Evaluate the error conversion at the top of term `t` (a `?`-conversion ("from", inner, fty, tty) or an `into()` /
+    `From::from` call on a constructor whose target type `tty` is known from the context) -> list of possible terms;
+    a term that is no conversion is returned as is; None when a conversion cannot be evaluated."""
+    t = pathsum.strip_sites(t)
+    if t[0] == "from":
+        return conv_values(crate, t[1], t[2], t[3], depth)
+    if t[0] == "call" and t[1].split("::")[-1] in ("into", "from") and len(t[2]) == 1 and ("Into" in t[1] or "From" in t[1]):
+        fty = ctor_type(t[2][0])
+        if fty is None or tty is None:
+            return None
+        return conv_values(crate, t[2][0], fty, tty, depth)
+    return [t]
+
+
 def const_bodies(crate):
     return {b["def"]: b["value"] for b in crate.facts["bodies"] if b["kind"].startswith("Const") or b["kind"].startswith("AssocConst")}
 
